@@ -56,12 +56,64 @@ def check_case(family, cv, kind, payload, out, classes, source):
                      'hex': bytes(val).hex()[:600], 'problems': probs[:4]}))
 
 
+POISON_STR = ('bogus', '', 'fe80::1%eth0', '10.0.0.256', '10.0.0.1/33', '1:2:3:4', '-1', 'Z\u00fcrich')
+POISON_INT = (-1, 256, 65536, 2 ** 32, 2 ** 64)
+
+
+def _leaves(x, path=()):
+    if isinstance(x, dict):
+        for k in sorted(x, key=repr):
+            for r in _leaves(x[k], path + (k,)):
+                yield r
+    elif isinstance(x, (list, tuple)):
+        for i, v in enumerate(x):
+            for r in _leaves(v, path + (i,)):
+                yield r
+    else:
+        yield path, x
+
+
+def _with(x, path, value):
+    import copy
+    y = copy.deepcopy(x)
+    cur = y
+    for j, k in enumerate(path[:-1]):
+        if isinstance(cur[k], tuple):
+            cur[k] = list(cur[k])
+        cur = cur[k]
+    cur[path[-1]] = value
+    return y
+
+
+def poisoned_cases(tier):
+    """every family representative (and the all-attributes message) with ONE leaf replaced by a value of the wrong shape: most are refused;
+    what is built after all must still be a structurally valid message"""
+    from ..ref import pools
+    from . import c06
+    msgs = [('ipv4-unicast', {'attr': dict(pools.REPRESENTATIVE), 'nlri': ['192.0.2.0/24'], 'withdraw': ['10.1.0.0/16']})]
+    msgs += [('%s/%d' % k, m) for k, m in c06.family_representatives(tier)]
+    # (the options the representatives do not use)
+    msgs.append(('ipv6-unicast/linklocal', {'attr': {1: 0, 2: [(2, [65001])], 14: {'afi_safi': (2, 1), 'nexthop': '2001:db8::1', 'linklocal_nexthop': 'fe80::1',
+                                                                               'nlri': ['2001:db8:1::/48']}}}))
+    for fam, msg in msgs:
+        for path, leaf in _leaves(msg):
+            vals = POISON_STR if isinstance(leaf, str) else POISON_INT if isinstance(leaf, int) and not isinstance(leaf, bool) else ('bogus', None)
+            for v in vals:
+                if v == leaf:
+                    continue
+                yield fam, ('poisoned=' + '/'.join(str(x) for x in path if not isinstance(x, int)), type(v).__name__, repr(v)[:24]), 'update', (_with(msg, path, v), True)
+
+
 def task(args):
     source, lo, hi, tier = args
     out = []
     classes = set()
     n = 0
-    if source == 'c08':
+    if source == 'poisoned':
+        for fam, cv, kind, payload in itertools.islice(poisoned_cases(tier), lo, hi):
+            n += 1
+            check_case(fam, tuple(cv), kind, payload, out, classes, source)
+    elif source == 'c08':
         gen = pools_c08.c08_cases(tier)
         for fam, cv, kind, payload in itertools.islice(gen, lo, hi):
             n += 1
@@ -170,6 +222,9 @@ def run(tier, seed):
     except ImportError:
         have_pools = False
         n06 = n07 = 0
+    npo = sum(1 for _ in poisoned_cases(tier)) if have_pools else 0
+    for lo in range(0, npo, 1500):
+        tasks.append(('poisoned', lo, lo + 1500, tier))
     res = explore.pmap(task, tasks, chunk=1)
     explore.close_pool()
     total = 0
